@@ -570,7 +570,7 @@ Section World.
               else Err ETLPMarkingDefinition
             | _, _ => Unmodelled
             end
-          | None => Ok tt
+          | None => Err ETLPMarkingDefinition      (* "Does not match any TLP Marking definition" *)
           end
         | _ => Err EKeyError
         end
